@@ -45,6 +45,10 @@ FileIdx(fs, name) == CHOOSE i \in 1..Len(fs) : fs[i].name = name
 \* a comment line after the header and a blank line before every declaration) - the line lookups must cope with both
 Loose(f) == "loose" \in DOMAIN f /\ f.loose
 Gap(f) == IF Loose(f) THEN "   " ELSE " "
+\* f.pad: the comment line of the loose layout is longer than 64 KiB (line readers with a fixed buffer give up there)
+RECURSIVE Dbl(_, _)
+Dbl(x, n) == IF n = 0 THEN x ELSE Dbl(x \o x, n - 1)
+Pad(f) == IF "pad" \in DOMAIN f /\ f.pad THEN Dbl(" generated banner", 12) ELSE ""
 \* line terminator of the file: "\n" or "\r\n" (f.eol); the line of a declaration is the same under both
 Eol(f) == IF "eol" \in DOMAIN f THEN f.eol ELSE "\n"
 RECURSIVE RelLines(_, _, _, _)
@@ -59,7 +63,7 @@ RECURSIVE DeclsText(_, _, _, _)
 DeclsText(f, ds, i, k) == IF i > Len(ds) THEN "" ELSE DeclText(f, ds[i], k) \o DeclsText(f, ds, i + 1, k)
 RECURSIVE CondsText(_, _, _, _)
 CondsText(f, cs, i, k) == IF i > Len(cs) THEN "" ELSE CondText(f, cs[i], k) \o CondsText(f, cs, i + 1, k)
-HeaderText(f) == (IF Modular(f) THEN "module " \o f.header \o Eol(f) ELSE "model" \o Eol(f) \o "  schema 1.1" \o Eol(f)) \o (IF Loose(f) THEN "# declarations of " \o f.name \o Eol(f) ELSE "")
+HeaderText(f) == (IF Modular(f) THEN "module " \o f.header \o Eol(f) ELSE "model" \o Eol(f) \o "  schema 1.1" \o Eol(f)) \o (IF Loose(f) THEN "# declarations of " \o f.name \o Pad(f) \o Eol(f) ELSE "")
 HeaderLen(f) == (IF Modular(f) THEN 1 ELSE 2) + (IF Loose(f) THEN 1 ELSE 0)
 Text(f, k) == HeaderText(f) \o DeclsText(f, f.decls, 1, k) \o CondsText(f, f.conds, 1, k)
 RECURSIVE SumLen(_, _, _)
